@@ -146,6 +146,15 @@ func altForms(in Inst) []Form {
 	return fs
 }
 
+// rare draws true with probability of roughly 0.55% * k (k <= 30). rapid's
+// integer generator favours the ends of a range heavily (0, 1 and the maximum
+// of 0..99 come up 10%, 10% and 3% of the time), so low rates are taken from
+// the flat middle of the range.
+func rare(t *rapid.T, label string, k int) bool {
+	x := rapid.IntRange(0, 99).Draw(t, label)
+	return x >= 32 && x < 32+k
+}
+
 // ---------------------------------------------------------------------------
 // float helpers
 
